@@ -211,6 +211,24 @@ where
     }
 }
 
+impl<Probability, F, Pmf, const PRECISION: usize>
+    LazyContiguousCategoricalEntropyModel<Probability, F, Pmf, PRECISION>
+where
+    Probability: BitArray,
+    F: FloatCore + AsPrimitive<Probability>,
+    usize: AsPrimitive<Probability>,
+    Pmf: AsRef<[F]>,
+{
+    /// Same float-to-int conversion as in `fast_quantized_cdf` (including the clamping to
+    /// the free weight), so that lazy and eager models are binary compatible.
+    #[inline(always)]
+    fn quantize_cumulative(&self, cumulative_float: F) -> Probability {
+        let free_weight = wrapping_pow2::<Probability>(PRECISION)
+            .wrapping_sub(&self.pmf.as_ref().len().as_());
+        core::cmp::min((cumulative_float * self.scale).as_(), free_weight)
+    }
+}
+
 impl<Probability, F, Pmf, const PRECISION: usize> EntropyModel<PRECISION>
     for LazyContiguousCategoricalEntropyModel<Probability, F, Pmf, PRECISION>
 where
@@ -239,7 +257,7 @@ where
         // SAFETY: when we initialized `probability_float`, we checked if `symbol` is out of bounds.
         let left_side = unsafe { pmf.get_unchecked(..symbol) };
         let left_cumulative_float = left_side.iter().copied().sum::<F>();
-        let left_cumulative = (left_cumulative_float * self.scale).as_() + symbol.as_();
+        let left_cumulative = self.quantize_cumulative(left_cumulative_float) + symbol.as_();
 
         // It may seem easier to calculate `probability` directly from `probability_float` but
         // this could pick up different rounding errors, breaking guarantees of `EncoderModel`.
@@ -249,7 +267,7 @@ where
             // lead to an inaccessible last quantile due to rounding errors.
             wrapping_pow2(PRECISION)
         } else {
-            (right_cumulative_float * self.scale).as_() + symbol.as_() + Probability::one()
+            self.quantize_cumulative(right_cumulative_float) + symbol.as_() + Probability::one()
         };
         let probability = right_cumulative
             .wrapping_sub(&left_cumulative)
@@ -303,10 +321,10 @@ where
         // Then search for the correct `symbol` using the same float-to-int conversions as in
         // `EncoderModel::left_cumulative_and_probability`.
         let mut left_cumulative =
-            (left_cumulative_float * self.scale).as_() + next_symbol.wrapping_sub(1).as_();
+            self.quantize_cumulative(left_cumulative_float) + next_symbol.wrapping_sub(1).as_();
 
         for &next_probability in &mut iter {
-            let right_cumulative = (right_cumulative_float * self.scale).as_() + next_symbol.as_();
+            let right_cumulative = self.quantize_cumulative(right_cumulative_float) + next_symbol.as_();
             if right_cumulative > quantile {
                 let probability = right_cumulative
                     .wrapping_sub(&left_cumulative)
